@@ -47,7 +47,7 @@ class C03(Check):
         ],
         "stub": ["FFTW planning rigor (MEASURE -> ESTIMATE)"],
     }
-    required_probes = ["zero_after_big", "two_solvers_interleaved", "vector_solve", "impulse_at_corner", "inplace", "non_square", "fft_unfriendly_size", "view_transposed", "view_interleaved", "large_grid_sparse_rhs", "two_solvers_differing_in_precision_only", "unrelated_fft_user_at_doubled_shape", "weak_rhs", "two_solvers_same_cell_count_other_shape"]
+    required_probes = ["zero_after_big", "two_solvers_interleaved", "vector_solve", "impulse_at_corner", "inplace", "non_square", "fft_unfriendly_size", "view_transposed", "view_interleaved", "large_grid_sparse_rhs", "two_solvers_differing_in_precision_only", "unrelated_fft_user_at_doubled_shape", "concurrent_solves_with_interleaving", "weak_rhs", "two_solvers_same_cell_count_other_shape"]
     tiers = {
         "quick": {"runs": 480, "batch": 6, "timeout": 240},
         "thorough": {"runs": 20000, "batch": 10, "timeout": 600},
@@ -146,6 +146,11 @@ class C03(Check):
                 "view": prng.weighted_choice(rng, VIEW_KINDS),
                 "rhs": [self._draw_rhs(rng, shape) for _ in range(3 if vec else 1)],
             }
+            if n_solvers == 2 and rng.random() < 0.15:
+                # two caller threads, one solver object each, solving at the same time: the simulated scheduler
+                # decides at every kernel / FFT call which thread continues
+                ops.append({"solver": 0, "kind": "concurrent", "view": "plain", "sched": rng.getrandbits(32),
+                            "rhs": [self._draw_rhs(rng, solvers[0]["shape"]), self._draw_rhs(rng, solvers[1]["shape"])]})
             if rng.random() < 0.1:
                 # an unrelated user of the public FFT helper class in the same process, at the solver's doubled shape
                 ops.append({"solver": s, "kind": "direct_fft", "how": rng.choice(["plan", "roundtrip"]), "view": "plain", "rhs": [{"kind": "smooth", "sub": prng.sub_seed(rng)}]})
@@ -249,6 +254,46 @@ class C03(Check):
             real_t = real_ts[s]
             eps = float(np.finfo(real_t).eps)
             shape = model.shape
+            if op["kind"] == "concurrent" and len(solvers) == 2:
+                from ..baton import Baton, wrap_callables
+
+                baton = Baton(2, op.get("sched", 0))
+                fs = [self._make_rhs(op["rhs"][k], models[k].shape, real_ts[k]) for k in range(2)]
+                outs2 = [np.full(models[k].shape, 7.7e5, dtype=real_ts[k]) for k in range(2)]
+                undo = [wrap_callables(solvers[k], baton, k) for k in range(2)]
+                try:
+                    trace = baton.run([lambda k=k: solvers[k].solve(solution_field=outs2[k], rhs_field=fs[k]) for k in range(2)])
+                finally:
+                    for u in undo:
+                        u()
+                for k in range(2):
+                    if baton.errors[k] is not None:
+                        raise baton.errors[k]
+                res.fault("concurrent_solves_interleaved")
+                switches = sum(1 for a, b in zip(trace, trace[1:], strict=False) if a != b)
+                res.probe("concurrent_solves_with_interleaving", 1 if switches >= 2 else 0)
+                res.log.event("concurrent", trace=trace)
+                for k in range(2):
+                    epsk = float(np.finfo(real_ts[k]).eps)
+                    want = models[k].solve(fs[k])
+                    got = np.asarray(outs2[k], dtype=np.float64)
+                    tol = models[k].tolerance(fs[k], epsk) + 4.0 * float(np.finfo(real_ts[k]).tiny)
+                    with np.errstate(invalid="ignore"):
+                        err = np.abs(got - want)
+                    if (~(err <= tol)).any():
+                        res.violation(
+                            "green_convolution",
+                            {"dim": dim, "op": "concurrent", "rhs": op["rhs"][k]["kind"], "after": "concurrent"},
+                            f"op {i}: two solver objects solving concurrently (schedule {trace}): solver {k} shape {models[k].shape} deviates from the model by {float(np.nanmax(err)):.3e} > {tol:.3e}",
+                            i,
+                        )
+                    res.log.array("out", outs2[k])
+                    last_kind[k] = op["rhs"][k]["kind"]
+                    n_solves[k] = n_solves.get(k, 0) + 1
+                    if op["rhs"][k]["kind"] != "zero":
+                        nonzero = True
+                res.add_sim("solves", 2)
+                continue
             if op["kind"] == "direct_fft":
                 dshape = tuple(2 * n for n in shape)
                 if int(np.prod(dshape)) <= 400000:
@@ -364,6 +409,7 @@ class C03(Check):
     # ------------------------------------------------------------ shrinking
     def repair(self, program):
         ns = len(program["solvers"])
+        program["ops"] = [o for o in program["ops"] if not (o["kind"] == "concurrent" and ns < 2)]
         for o in program["ops"]:
             o["solver"] = o["solver"] % ns
         return program
@@ -396,7 +442,7 @@ class C03(Check):
                 c = copy.deepcopy(program)
                 c["ops"][oi]["view"] = "plain"
                 yield c
-            if o["kind"] in ("aborted_solve", "direct_fft"):
+            if o["kind"] in ("aborted_solve", "direct_fft", "concurrent"):
                 continue
             if o["kind"] == "vsolve":
                 c = copy.deepcopy(program)
